@@ -112,35 +112,7 @@ def run(chk, repo, tier):
            '; '.join(f'`{a}` -> `{p}`' for p, a in (bind.b3_mismatches(sites[0]) if sites else [])), fr.loc())
 
     # ---------------------------------------------------------------- C18-e
-    f, paths, _ = analyse(repo, 'wfe.power_spectrum')
-    rets = returns(paths)
-    if len(rets) != 1:
-        raise AnalysisError('power_spectrum: expected one path')
-    p = rets[0]
-    r = p.ret
-    hm = isinstance(r, Poly) and has_factor(r, lambda a: a == ('sym', 'mask'))
-    chk.ob('C18-e', 'D-factor', f.key, 'mask is a factor of the surface (zero outside the mask)', hm,
-           '' if hm else f'result {fmt(r)[:200]}', f.loc(p.node))
-    # RMS algebra: r = opd0 * c, c^2 * sum|opd0|^2 / count = rms^2
-    sums = [a for a in r.atoms(deep=True) if is_app(a, 'sum')]
-    cnts = [a for a in r.atoms(deep=True) if is_app(a, 'count_nonzero')]
-    okr, det = False, 'normalisation not recognised'
-    if len(cnts) == 1:
-        opd0 = cnts[0][2][0]
-        c = r / opd0
-        lhs = c ** 2 * nf.app('sum', nf_abs(opd0) ** 2) / nf.app('count_nonzero', opd0)
-        okr = lhs == S('rms') ** 2
-        det = f'c^2*sum|opd|^2/count = {fmt(lhs)[:120]}'
-    chk.ob('C18-e', 'N-identity', f.key, 'RMS over the mask equals rms', okr, det, f.loc(p.node))
-    decl = declare_2d('mask')
-    for nm, kind in doc_param_kinds(f).items():
-        if kind == 'scalar':
-            decl[('sym', nm)] = ()
-    sh = Shapes(decl)
-    s = sh.of(r, where='power_spectrum')
-    ok = s == decl[('sym', 'mask')] and not sh.clashes
-    chk.ob('C18-e', 'U-shape', f.key, 'noise, filter and mask share the (rows, cols) axes', ok,
-           '; '.join(sorted(set(sh.clashes))[:2]) or f'shape {tuple(map(fmt, s)) if s is not None else "unknown"}', f.loc(p.node))
+    _ps_rules(chk, repo)
 
     # ---------------------------------------------------------------- C18-f
     f, paths, _ = analyse(repo, 'detector.cosmic_rays')
@@ -166,3 +138,40 @@ def run(chk, repo, tier):
         okn = okn and rr.nonneg
         det = f'range {rr!r}'
     chk.ob('C18-f', 'R-sign', f.key, 'deposited charge is non-negative', okn and n > 0, det, f.loc())
+
+
+def _ps_rules(chk, repo):
+    f, paths, _ = analyse(repo, 'wfe.power_spectrum')
+    rets = returns(paths)
+    if not rets:
+        raise AnalysisError('power_spectrum: no returning path')
+    for p in rets:
+        _ps_path(chk, f, p)
+
+
+def _ps_path(chk, f, p):
+    r = p.ret
+    hm = isinstance(r, Poly) and has_factor(r, lambda a: a == ('sym', 'mask'))
+    chk.ob('C18-e', 'D-factor', f.key, 'mask is a factor of the surface (zero outside the mask)', hm,
+           '' if hm else f'result {fmt(r)[:200]}', f.loc(p.node))
+    # RMS algebra: r = opd0 * c, c^2 * sum|opd0|^2 / count = rms^2
+    sums = [a for a in r.atoms(deep=True) if is_app(a, 'sum')]
+    cnts = [a for a in r.atoms(deep=True) if is_app(a, 'count_nonzero')]
+    okr, det = False, 'normalisation not recognised'
+    if len(cnts) == 1:
+        opd0 = cnts[0][2][0]
+        c = r / opd0
+        lhs = c ** 2 * nf.app('sum', nf_abs(opd0) ** 2) / nf.app('count_nonzero', opd0)
+        okr = lhs == S('rms') ** 2
+        det = f'c^2*sum|opd|^2/count = {fmt(lhs)[:120]}'
+    chk.ob('C18-e', 'N-identity', f.key, 'RMS over the mask equals rms', okr, det, f.loc(p.node))
+    decl = declare_2d('mask')
+    for nm, kind in doc_param_kinds(f).items():
+        if kind == 'scalar':
+            decl[('sym', nm)] = ()
+    sh = Shapes(decl)
+    s = sh.of(r, where='power_spectrum')
+    ok = s == decl[('sym', 'mask')] and not sh.clashes
+    chk.ob('C18-e', 'U-shape', f.key, 'noise, filter and mask share the (rows, cols) axes', ok,
+           '; '.join(sorted(set(sh.clashes))[:2]) or f'shape {tuple(map(fmt, s)) if s is not None else "unknown"}', f.loc(p.node))
+
